@@ -4,7 +4,7 @@ namespace SaphyrModel.Sc
 open SaphyrModel
 
 inductive Site
-  | lookaheadOverflow | pushBackFull | peekEmpty | peekNthOOB | skipNOOB
+  | lookaheadOverflow | pushBackFull | peekEmpty | peekNthOOB | skipNOOB | skipEmpty
   | assertBuflen2 | assertBuflen3 | assertBuflen4
   | strPlainEmpty | strSkipWsAssert
   | indentsPopUnwrap | indentsLastUnwrap | simpleKeysLastUnwrap | simpleKeysPopUnwrap
@@ -90,10 +90,16 @@ def buflen (i : In) : Nat := match i.kind with | .str => i.la | .buf => i.buf.le
 def bufmaxlen (i : In) : Nat := i.cap
 def bufIsEmpty (i : In) : Bool := i.buflen == 0
 
+/-- `skip`. On a buffered input the `Input` contract demands a look-ahead request before every
+    consumption; `BufferedInput::skip` on an empty ring is a silent `pop_front` of nothing. The model
+    stops there (`skipEmpty`): no theorem may lean on that silent no-op, and if the scanner ever did it
+    the token correspondence would show the model stopping where the implementation goes on. -/
 def skip : M In Unit := fun i =>
   match i.kind with
   | .str => .ok ((), { i with iter := i.iter.tail })
-  | .buf => .ok ((), { i with buf := i.buf.tail })
+  | .buf => match i.buf with
+    | [] => .panic .skipEmpty
+    | _ :: r => .ok ((), { i with buf := r })
 
 def skipN (n : Nat) : M In Unit := fun i =>
   match i.kind with
